@@ -274,6 +274,14 @@ def mutate_text(g, b):
 def mutate_call(g, c):
     """a call of the same kind whose formatted value differs"""
     import json as _json
+    if c.kind == 'sasnap' and g.r.random() < 0.25:
+        ls = c.payload.split(b'\n')
+        cand = [i for i, l in enumerate(ls) if l in (b'---', b'/-/-/-/')]
+        if cand:
+            i = g.r.choice(cand)
+            ls[i] = b'/-/-/-/' if ls[i] == b'---' else b'---'
+            # a standalone file is stored verbatim: the two spellings are different values
+            return Call('sasnap', b'\n'.join(ls)), 'swap-token-standalone'
     if c.kind in ('snap', 'sasnap'):
         if isinstance(c.payload, (list, tuple)):
             vals = list(c.payload)
